@@ -65,11 +65,45 @@ pub fn conv(s: &SymbolicBDD) -> Option<Ast> {
         SymbolicBDD::Quantifier(q, vs, b) => Ast::Q(*q == QuantifierType::Exists, vs.iter().map(|v| v.name.as_ref().clone()).collect(), bx(b)?),
         SymbolicBDD::CountableConst(op, l, n) => Ast::CC(conv_cmp(*op), list(l)?, n.to_string()),
         SymbolicBDD::CountableVariable(op, l, r) => Ast::CV(conv_cmp(*op), list(l)?, list(r)?),
-        SymbolicBDD::FixedPoint(v, g, b) => Ast::Fp(v.name.as_ref().clone(), *g, bx(b)?),
+        SymbolicBDD::FixedPoint(v, g, b) => Ast::Fp(v.name.as_ref().clone(), fp_flag_is_gfp(*g), bx(b)?),
         SymbolicBDD::Ite(c, t, e) => Ast::Ite(bx(c)?, bx(t)?, bx(e)?),
         SymbolicBDD::BinaryOp(op, l, r) => Ast::Bin(conv_bin(*op), bx(l)?, bx(r)?),
         SymbolicBDD::Subtree(_) => return None,
     })
+}
+
+thread_local! {
+    static FP_TRUE_IS_GFP: std::cell::Cell<Option<bool>> = const { std::cell::Cell::new(None) };
+}
+
+/// What the boolean of `SymbolicBDD::FixedPoint` MEANS is defined by what the evaluator does
+/// with it, not by this harness: calibrated once by parsing and evaluating `gfp X # X`
+/// (true for a greatest, false for a least fixed point). If the probe cannot be evaluated the
+/// pinned commit's convention (true = greatest) is assumed.
+pub fn fp_flag_is_gfp(flag: bool) -> bool {
+    let true_is_gfp = FP_TRUE_IS_GFP.with(|c| {
+        if let Some(v) = c.get() {
+            return v;
+        }
+        let probe = guarded(|| {
+            let p = ParsedFormula::new(&mut std::io::BufReader::new("gfp X # X".as_bytes()), None).ok()?;
+            let SymbolicBDD::FixedPoint(_, b, _) = &p.bdd else { return None };
+            let b = *b;
+            rsbdd::verif_hooks::set_fp_fuel(Some(DEFAULT_FUEL));
+            let r = p.eval();
+            rsbdd::verif_hooks::set_fp_fuel(None);
+            match r.as_ref() {
+                BDD::True => Some(b),
+                BDD::False => Some(!b),
+                _ => None,
+            }
+        });
+        rsbdd::verif_hooks::set_fp_fuel(None);
+        let v = probe.ok().flatten().unwrap_or(true);
+        c.set(Some(v));
+        v
+    });
+    flag == true_is_gfp
 }
 
 /// implementation token -> reference token (None for Eof)
